@@ -178,4 +178,16 @@ theorem tie_manifestEscape : manifestEscapeText =
 
 theorem tie_manifestEscapedChar : manifestEscapedChar = "[\\000-\\040:\\s\\\\]" := rfl
 
+/-- the collection filesystem's `Mkdir` reports an existing entry with the bare sentinel
+`os.ErrExist`, which is what `Copy` compares with by identity (`tie_copy_conds`:
+`err != nil && err != os.ErrExist`; the model's `mkdir` tolerates an existing entry) -/
+theorem tie_fs_mkdir_returns : fsMkdirReturns = ["err", "err", "os.ErrExist", "", "", "err"] := rfl
+
+/-- `commitBlock` (behind `Flush` / `MarshalManifest`): the background goroutine gives its Keep
+writer slot back right after `PutB`, before it waits for the file locks that an asynchronous
+`Flush` still holds (the model assumes `Flush`/`MarshalManifest` return) -/
+theorem tie_commitBlock_slot : (commitBlockSkeleton.drop 17).take 9 =
+    ["call dn.fs.throttle().Acquire", "call dn.fs.throttle", "go", "func {", "defer", "defer",
+     "call dn.fs.PutB => locator,_,err", "call dn.fs.throttle().Release", "call dn.fs.throttle"] := rfl
+
 end ArvVerif.Tie.C17
